@@ -319,3 +319,178 @@ func VH_C02_pairs() {
 	}
 	vReach("ran")
 }
+
+// operand kinds beyond numbers: 0 int (symbol), 1 float (symbol), 2 string,
+// 3 array, 4 null, 5 dict
+func vC02MixedOperand(vm *Context, name, label string, kind int, asCount bool) (i int64, f float64) {
+	switch kind {
+	case 0:
+		if asCount {
+			// a repeat count: boundary values instead of a symbol (the result's length follows it)
+			i = []int64{-1, 0, 1, 3, 256, 257, 513, 1 << 62, -1 << 63}[vChoice(label+"count", 9)]
+		} else {
+			i = vInt64(label + "i")
+		}
+		vm.Attrs.Store(name, NewIntVal(IntType(i)))
+	case 1:
+		f = vFloat64(label + "f")
+		vm.Attrs.Store(name, NewFloatVal(f))
+	case 2:
+		vm.Attrs.Store(name, NewStrVal("abc"))
+	case 3:
+		vm.Attrs.Store(name, NewArrayVal(NewIntVal(1), NewIntVal(2)))
+	case 4:
+		vm.Attrs.Store(name, NewNullVal())
+	default:
+		vm.Attrs.Store(name, NewDictValWithArrayMust(NewStrVal("a"), NewIntVal(1)).V())
+	}
+	return
+}
+
+var vC02MixedRepr = []string{"", "", "'abc'", "[1, 2]", "null", "{'a': 1}"}
+
+func init() {
+	vHarnesses["VH_C02_binop_mixed"] = VH_C02_binop_mixed
+}
+
+//vh:prop=C02 tiers=quick,thorough sigkeys=op,lkind,rkind,IgnoreDiv0 budget_s=900 bounds="sixteen binary operators x operand kinds {int, float (64-bit / Float64 symbols), string 'abc', array [1,2], null, dict {'a':1}} with at least one non-numeric operand, IgnoreDiv0 both ways, program 'x <op> y' through the real parser and VM: arithmetic, ordering and bitwise operators on a non-numeric operand are a type error whatever the other operand's value (also a zero divisor under IgnoreDiv0); string + string and array + array concatenate; array * int repeats (error for a negative count or more than 512 elements); == / != compare structurally; && || ?? yield an operand"
+func VH_C02_binop_mixed() {
+	op := vC02Ops[vChoice("op", len(vC02Ops))]
+	lk, rk := vChoice("lkind", 6), vChoice("rkind", 6)
+	if lk < 2 && rk < 2 {
+		return // both numeric: VH_C02_binop
+	}
+	vm := vNewVM()
+	li, lf := vC02MixedOperand(vm, "x", "l", lk, op == "*" && rk == 3)
+	ri, _ := vC02MixedOperand(vm, "y", "r", rk, op == "*" && lk == 3)
+	vm.Config.IgnoreDiv0 = vChoice("IgnoreDiv0", 2) == 1
+	err := vm.Run("x " + op + " y")
+	vReach("ran")
+	repr := func() string {
+		if err != nil || vm.Ret == nil {
+			return "<error>"
+		}
+		return vm.Ret.ToRepr()
+	}
+	operand := func(left bool) {
+		k := rk
+		if left {
+			k = lk
+		}
+		vAssert(err == nil, "no-error-prescribed")
+		if err != nil {
+			return
+		}
+		if k >= 2 {
+			vAssert(repr() == vC02MixedRepr[k], "operand-is-the-value")
+			return
+		}
+		// a numeric operand: same kind and payload
+		if k == 0 {
+			got, ok := vm.Ret.ReadInt()
+			want := ri
+			if left {
+				want = li
+			}
+			vAssert(ok && int64(got) == want, "operand-is-the-value")
+		} else {
+			_, ok := vm.Ret.ReadFloat()
+			vAssert(ok, "operand-is-the-value")
+		}
+	}
+	switch op {
+	case "+":
+		switch {
+		case lk == 2 && rk == 2:
+			vAssert(err == nil && repr() == "'abcabc'", "string-concatenation")
+		case lk == 3 && rk == 3:
+			vAssert(err == nil && repr() == "[1, 2, 1, 2]", "array-concatenation")
+		default:
+			vAssert(err != nil, "type-error-prescribed")
+		}
+	case "*":
+		if (lk == 3 && rk == 0) || (lk == 0 && rk == 3) {
+			n := ri
+			if lk == 0 {
+				n = li
+			}
+			if n < 0 || n > 256 {
+				vAssert(err != nil, "array-repeat:error-prescribed")
+			} else {
+				vAssert(err == nil, "array-repeat:no-error-prescribed")
+				if err == nil {
+					ad, ok := vm.Ret.ReadArray()
+					vAssert(ok && int64(len(ad.List)) == 2*n, "array-repeat:length")
+				}
+			}
+		} else {
+			vAssert(err != nil, "type-error-prescribed")
+		}
+	case "-", "/", "%", "<", "<=", ">", ">=", "&", "|":
+		vAssert(err != nil, "type-error-prescribed")
+	case "==", "!=":
+		vAssert(err == nil, "no-error-prescribed")
+		if err == nil {
+			got, ok := vm.Ret.ReadInt()
+			eq := lk == rk // different kinds are never equal; equal kinds hold equal contents here
+			vAssert(ok && (got == 1) == (eq == (op == "==")), "structural-equality")
+		}
+	case "&&", "||":
+		truthy := lk >= 2 && lk != 4
+		if lk == 0 {
+			truthy = li != 0
+		} else if lk == 1 {
+			truthy = lf != 0
+		}
+		operand(truthy == (op == "||"))
+	case "??":
+		operand(lk != 4)
+	}
+}
+
+// dice under min / max mode are deterministic: every die shows 1 / its side
+// count, then the term's own min / max modifiers clamp it
+var vC02DiceProgs = []struct{ src, min, max string }{
+	{"d6min3 + d6", "4", "12"},
+	{"d6 + d6min3", "4", "12"},
+	{"[d20max1, d20, d20]", "[1, 1, 1]", "[1, 20, 20]"},
+	{"2d6kh1 + 3d4", "4", "18"},
+	{"3d4 + 2d6kl1", "4", "18"},
+	{"d10max4 * 2 + 2d10", "4", "28"},
+	{"(d4max2)d6", "1", "12"},
+	{"d(d6min4)", "1", "6"},
+	{"x = d8min5; y = d8; [x, y]", "[5, 1]", "[8, 8]"},
+	{"func fn1() { d6min6 }; fn1() + d6", "7", "12"},
+	{"&v1 = d6max1; v1 + d6", "2", "7"},
+	{"`{d6min4}-{d6}`", "'4-1'", "'6-6'"},
+	{"2d6dl1 + 2d6dh1", "2", "12"},
+	{"d100min60 + 3d6 + d6max2", "64", "120"},
+}
+
+func init() {
+	vHarnesses["VH_C02_dice"] = VH_C02_dice
+}
+
+//vh:prop=C02 tiers=quick,thorough sigkeys=prog,mode budget_s=600 bounds="14 programs with two or more dice terms (keep / drop / min / max modifiers, nested counts and sides, dice in functions, computed values, templates, arrays, assignments) under DiceMinMode and DiceMaxMode: the value is the one the dice rule prescribes with every die at 1 / at its side count and each term's own modifiers only; evaluated twice on the same VM"
+func VH_C02_dice() {
+	pr := vC02DiceProgs[vChoice("prog", len(vC02DiceProgs))]
+	maxMode := vChoice("mode", 2) == 1
+	vm := vNewVM()
+	vm.Config.DiceMinMode = !maxMode
+	vm.Config.DiceMaxMode = maxMode
+	want := pr.min
+	if maxMode {
+		want = pr.max
+	}
+	for round := 0; round < 2; round++ {
+		err := vm.Run(pr.src)
+		vAssert(err == nil, "no-error-prescribed")
+		if err != nil {
+			return
+		}
+		vAssert(vm.RestInput == "", "program-consumed-entirely")
+		vAssert(vm.Ret.ToRepr() == want, "value-as-prescribed-under-min/max-mode")
+	}
+	vReach("ran")
+	vAssert(vDrawCount() == 0, "no-randomness-under-min/max-mode")
+}
